@@ -180,6 +180,9 @@ SHELLS = {
     "He": [("p", [3.0], [[1.0]])],
     "Li": [("S", [4.0, 1.0, 0.25], [[0.5, 0.25, 1.0], [0.125, 2.0, -1.0]]), ("D", [0.75], [[1.0]])],
     # one shell per letter of the spectroscopic sequence s p d f g h i k (j is skipped)
+    # the last shell of one element and the first shell of the next with the same l and the same exponents
+    "B": [("S", [2.0, 0.5], [[0.75, 0.5]]), ("P", [1.75, 0.375], [[0.5, 1.25]])],
+    "C": [("P", [1.75, 0.375], [[1.5, -0.25]]), ("D", [0.625], [[1.0]])],
     "Ne": [("F", [1.5], [[1.0]]), ("g", [1.25], [[1.0]]), ("H", [0.5], [[1.0]]), ("I", [0.25], [[1.0]]), ("K", [0.125], [[1.0]])],
 }
 ANG = {"s": 0, "p": 1, "d": 2, "f": 3, "g": 4, "h": 5, "i": 6, "k": 7}
@@ -206,7 +209,7 @@ def fmt_num(x, style):
     return _NUMSTR[(float(x), style)]
 
 
-ALL_ELEMENTS = ("H", "He", "Li", "Ne")
+ALL_ELEMENTS = ("H", "He", "Li", "B", "C", "Ne")
 
 
 def _noise(lines, noise, k, nprim, comment):
